@@ -202,3 +202,65 @@ func TestC05Large(t *testing.T) {
 		st.class("large_shape_round_trip")
 	}
 }
+
+// TestC06Large: generated legacy streams with more than 65535 nodes / prefixes.
+func TestC06Large(t *testing.T) {
+	st := newStats("C06")
+	defer st.write()
+	shard, nshards := envInt("VERIF_SHARD", 0), envInt("VERIF_NSHARDS", 1)
+	all := largeSpecs()
+	pick := func(prefix string) largeSpec {
+		for _, sp := range all {
+			if len(sp.name) >= len(prefix) && sp.name[:len(prefix)] == prefix {
+				return sp
+			}
+		}
+		panic("harness: no large spec " + prefix)
+	}
+	type lc struct {
+		sp     largeSpec
+		layout string
+		opt    OptSpec
+	}
+	cases := []lc{
+		{pick("rand8x70000/filter"), "C1", OptSpec{1, 0, 0, 0}},
+		{pick("pairs66000"), "0.5.10", OptSpec{0, 0, 0, 2}},
+	}
+	if thorough() {
+		cases = append(cases,
+			lc{pick("rand8x70000/filter"), "E", OptSpec{1, 0, 0, 0}},
+			lc{pick("rand8x70000/filter"), "C2", OptSpec{1, 0, 0, 0}},
+			lc{pick("pairs70000"), "D", OptSpec{1, 0, 0, 0}},
+			lc{pick("pairs66000"), "0.5.11", OptSpec{0, 2, 0, 0}},
+			lc{pick("counters70000"), "0.5.10", OptSpec{0, 0, 0, 0}},
+		)
+	}
+	for i, x := range cases {
+		if i%nshards != shard {
+			continue
+		}
+		sp := x.sp
+		sp.enc, sp.vm = "I32", "distinct"
+		c := largeCase(sp)
+		c.Prop, c.Opt, c.Load = "C06", x.opt, x.layout
+		c.Gen = "large:" + sp.name + "/" + x.layout
+		sub := newStats("C06")
+		if err := checkC06(c, sub); err != nil {
+			if _, ok := err.(*violation); !ok {
+				t.Fatalf("HARNESS ERROR: %v", err)
+			}
+			path := writeReplay("C06", c)
+			fmt.Printf("VIOLATION property=C06 replay=%s\n", path)
+			fmt.Printf("DETAIL property=C06 large shape %s: %s\n", c.Gen, oneLine(err.Error()))
+			t.Fatalf("C06 violated on %s: %v", c.Gen, err)
+		}
+		st.calls(int(sub.Calls))
+		for k, v := range sub.Classes {
+			if len(k) > 7 && k[:7] == "legacy:" {
+				st.classN(k, v)
+			}
+		}
+		st.done(c, true, "large")
+		st.class("large_legacy_stream_checked")
+	}
+}
